@@ -85,11 +85,12 @@ Fixpoint drop_spaces (l : list Z) : list Z :=
   | [] => []
   end.
 
-(* acceptWord("in") on the text that follows the word `not`: spaces, `in`, then a space or the end *)
+(* acceptWord("in") on the text that follows the word `not`: spaces, `in`, then a space or the end
+   (the model's end-of-input marker -1 is no rune of a real text) *)
 Definition notin_accepts (tail : list Z) : bool :=
   match drop_spaces tail with
   | c1 :: c2 :: t2 =>
-      (c1 =? 105) && (c2 =? 110) && match t2 with [] => true | c :: _ => c =? 32 end
+      (c1 =? 105) && (c2 =? 110) && match t2 with [] => true | c :: _ => (c =? 32) || (c =? eof) end
   | _ => false
   end.
 
